@@ -13,7 +13,11 @@ Inductive case :=
 (* oversize header: announced size, configured maximum, bytes allocated by the process while handling it, closed? *)
 | COversize (announced maxsize allocated : N) (closed : bool)
 (* outbound: Maximum Packet Size announced by the client, largest packet it received, small messages delivered? *)
-| COutbound (maxsize largest : nat) (small_delivered : bool).
+| COutbound (maxsize largest : nat) (small_delivered : bool)
+(* what the broker writes to a client of one protocol version when the messages come from a publisher of another
+   (a retained message delivered on SUBSCRIBE, a live publish, a Will): every packet decoded as a packet of the
+   connection's version, the expected messages arrived with exactly their topic and payload *)
+| CWellFormed (all_decoded exact : bool).
 
 Fixpoint list_eqb {A} (e : A -> A -> bool) (a b : list A) : bool :=
   match a, b with
@@ -49,6 +53,7 @@ Definition case_ok (c : case) : bool :=
   | COversize announced maxsize allocated closed =>
       closed && N.ltb allocated (N.div announced 2)
   | COutbound maxsize largest small => (largest <=? maxsize) && small
+  | CWellFormed dec exact => dec && exact
   end.
 
 Fixpoint mismatches_from (i : nat) (cs : list case) : list nat :=
